@@ -86,13 +86,18 @@ Definition model_forward_ok (c : case) : bool :=
    bit 2 (4):  the hypotheses of the theorem do not hold for this case (epsilon larger than a gap, negative times,
                a backward edge)
    bit 3 (8):  the model ran out of fuel (never expected)
-   bit 4 (16): hypotheses hold and the model violates the proved statement (never expected: a theorem instance) *)
+   bit 4 (16): hypotheses hold and the model violates the proved statement, or problem.epsilon is None, the mockup's
+               GLOBAL_END timings are fine and the gap hypothesis fails (never expected: theorem instances) *)
 Definition code (c : case) : N :=
   ((if impl_forward_ok c then 0 else 1) +
    (if model_matches c then 0 else 2) +
    (if hyps c then 0 else 4) +
    (match convert_to_stn (c_fuel c) (eps_of c) (mock_of c) (c_plan c) (c_edges c) with None => 8 | Some _ => 0 end) +
-   (if hyps c && negb (model_forward_ok c) then 16 else 0))%N.
+   (if (hyps c && negb (model_forward_ok c)) ||
+       (match c_problem_eps c, extract_epsilon (mock_of c) (c_plan c) with
+        | None, Some _ => mock_end_ok (mock_of c) && negb (gap_ok (eps_of c) (events_of c))
+        | _, _ => false
+        end) then 16 else 0))%N.
 
 (* details for a replay *)
 Definition show (c : case) :=
